@@ -7,6 +7,8 @@ import (
 	"net"
 	"os"
 	"path/filepath"
+	"strings"
+	"sync/atomic"
 	"time"
 
 	plugin "github.com/hashicorp/go-plugin"
@@ -20,10 +22,24 @@ import (
 )
 
 // rawAttached follows the hand-written plugin "process".
-type rawAttached struct{ done chan struct{} }
+type rawAttached struct {
+	done   chan struct{}
+	closed atomic.Bool
+	forced atomic.Bool
+}
 
-func (a *rawAttached) Wait(context.Context) error                        { <-a.done; return nil }
-func (a *rawAttached) Kill(context.Context) error                        { return nil }
+func (a *rawAttached) exit() {
+	if a.closed.CompareAndSwap(false, true) {
+		close(a.done)
+	}
+}
+func (a *rawAttached) Wait(context.Context) error { <-a.done; return nil }
+func (a *rawAttached) Kill(context.Context) error {
+	if !a.closed.Load() {
+		a.forced.Store(true)
+	}
+	return nil
+}
 func (a *rawAttached) ID() string                                        { return "raw-plugin" }
 func (a *rawAttached) PluginToHost(n, ad string) (string, string, error) { return n, ad, nil }
 func (a *rawAttached) HostToPlugin(n, ad string) (string, string, error) { return n, ad, nil }
@@ -60,6 +76,7 @@ func init() {
 			_ = mainLn
 			var addr string
 			stopCh := make(chan func(), 1)
+			att := &rawAttached{done: make(chan struct{})}
 			x.Go("plugin", func() {
 				if p["mode"] == "broker-eos" || p["mode"] == "broker-emptyknock" {
 					for i := 1; i <= 4; i++ {
@@ -88,6 +105,13 @@ func init() {
 						}
 					}
 				}
+				if strings.HasPrefix(p["mode"], "stdio-status-") {
+					// one chunk on each channel, then the stdio stream ends with a status code (Internal 13, Unknown 2, OK-less
+					// shapes a gRPC server in another language produces when its handler fails)
+					opts.Stdio = []plugin.VRawStdio{{Channel: 1, Data: []byte("out")}, {Channel: 2, Data: []byte("err")}}
+					opts.StdioEndCode = atoi(strings.TrimPrefix(p["mode"], "stdio-status-"))
+					opts.OnStop = att.exit // the process exits when it has been asked to shut down
+				}
 				if p["mode"] == "broker-late-eos" {
 					// the plugin waits for the host's announcement of id 9, ends the broker stream (it has what it needs) and dials
 					opts.EndAfterHostInfo = true
@@ -112,8 +136,7 @@ func init() {
 				return
 			}
 			stop := <-stopCh
-			att := &rawAttached{done: make(chan struct{})}
-			x.OnCleanup(func() { stop(); close(att.done) })
+			x.OnCleanup(func() { stop(); att.exit() })
 			so, se := &lockedBuf{}, &lockedBuf{}
 			gp := &fullGRPCPlugin{}
 			ua, _ := vnet.ResolveUnixAddr("unix", addr)
@@ -124,7 +147,7 @@ func init() {
 				Logger:           nullLogger(),
 				SyncStdout:       so,
 				SyncStderr:       se,
-				Reattach: &plugin.ReattachConfig{Protocol: plugin.ProtocolGRPC, ProtocolVersion: 1, Addr: ua, Pid: 1 << 22, Test: true,
+				Reattach: &plugin.ReattachConfig{Protocol: plugin.ProtocolGRPC, ProtocolVersion: 1, Addr: ua, Pid: 1 << 22, Test: !strings.HasPrefix(p["mode"], "stdio-status-"),
 					ReattachFunc: func() (runner.AttachedRunner, error) { return att, nil }},
 			})
 			x.OnCleanup(cl.Kill)
@@ -203,6 +226,13 @@ func init() {
 						x.Pause(1500 * time.Millisecond)
 					}
 				})
+			case "stdio-status-13", "stdio-status-2", "stdio-status-8":
+				x.Pause(time.Second)
+				if err := cp.Ping(); err != nil {
+					failT(x, "Ping after the stdio stream ended: %v", err)
+				}
+				cl.Kill()
+				x.Put("killed", !att.forced.Load()) // (the leak verdict is about graceful exits)
 			case "stdio-big":
 				for i := 0; i < 200 && (so.Len() < len(wantOut) || se.Len() < len(wantErr)); i++ {
 					x.Pause(100 * time.Millisecond)
@@ -243,8 +273,20 @@ func init() {
 			for _, e := range x.EndBlocked {
 				x.Fail("L", "blocked forever: %s", e)
 			}
+			if x.Data["killed"] == true && len(x.Violations()) == 0 && x.Data["session-disturbed"] != true {
+				// C18: after Kill nothing that go-plugin started for the client is left in the host
+				x.Quiesce(7 * time.Second)
+				for _, g := range x.Goroutines("hashicorp/go-plugin.") {
+					if strings.HasPrefix(g, "host: ") {
+						x.Fail("L", "goroutine left in the host after Kill: %s", g)
+					}
+				}
+			}
 		},
 		Instances: func(tier string) []explore.Params {
+			if tier == "stdio-status" {
+				return []explore.Params{{"mode": "stdio-status-13"}, {"mode": "stdio-status-2"}, {"mode": "stdio-status-8"}}
+			}
 			return []explore.Params{{"mode": tier}}
 		},
 	})
